@@ -500,7 +500,7 @@ class ControlUnderlyings(Lemma):
         PAYK = z3.Function("CONTROL_PRODUCT_PAYOFF", z3.IntSort(), z3.RealSort(), z3.RealSort())
         pay = lambda k, u: Sym(PAYK(z3.IntVal(k), as_real_term(lift(u))), "r")
         it.hooks["rpylib.product.product:Product.__call__"] = lambda it_, f, b: pay(b["self"].fields["tag"], [v for k_, v in b.items() if k_ != "self"][0])
-        prods = [vc.obj("rpylib.product.product:Product", payoff_underlying=vc.new(UND + "NthSpot", k + 1), tag=k) for k in range(d)]
+        prods = [self._control(vc, vc.new(UND + "NthSpot", k + 1), k) for k in range(d)]
         cv = vc.obj("rpylib.product.product:ControlVariates", products=prods, prices=[0.0] * d, nb_cvs=d, _underlying_functions=[])
         vc.method(cv, "initialisation", vc.new(UND + "Spot"))          # the payoff underlying OBJECT of the priced product
         pu = np.array(vc.reals("spot_at_maturity", d), dtype=object)
@@ -515,6 +515,14 @@ class ControlUnderlyings(Lemma):
         vc.check(nm + "::one-value-per-control", len(res) == d)
         for k in range(min(d, len(res))):
             vc.check(nm + f"::control{k}-is-its-own-product-on-its-own-component", compare(res[k], pay(k, pu[k]), "=="))
+
+    @staticmethod
+    def _control(vc, underlying, tag):
+        """a control product through the real constructor (its payoff is a forward: not path dependent; its value function is
+        abstracted per product by the hook on Product.__call__)"""
+        p_ = vc.new("rpylib.product.product:Product", underlying, vc.new("rpylib.product.payoff:Forward", 0.0), 1.0)
+        p_.fields["tag"] = tag
+        return p_
 
     def prove_same_class(self, vc, same=False, cls="NthSpot", ctrl_args=(2,), prod_args=None, what=None):
         """the priced product is written on the FIRST spot, the control on the SECOND one (same underlying class, other term):
@@ -532,7 +540,7 @@ class ControlUnderlyings(Lemma):
         ctrl = vc.new(UND + cls, *ctrl_args)
         own = vc.real("value_of_the_second_spot")
         it.hooks[UND + cls + ".value"] = lambda it_, f, b: own if b["self"] is ctrl else vc.real("value_of_the_first_spot")
-        cv = vc.obj("rpylib.product.product:ControlVariates", products=[vc.obj("rpylib.product.product:Product", payoff_underlying=ctrl, tag=0)], prices=[0.0], nb_cvs=1, _underlying_functions=[])
+        cv = vc.obj("rpylib.product.product:ControlVariates", products=[self._control(vc, ctrl, 0)], prices=[0.0], nb_cvs=1, _underlying_functions=[])
         vc.method(cv, "initialisation", vc.new(UND + cls, *prod_args))
         pu = own if same else vc.real("payoff_underlying_of_the_priced_product")     # same underlying: the engine hands over its value on this path
         path = np.array(vc.reals("path", 4), dtype=object).reshape(2, 2)
